@@ -115,5 +115,59 @@ PLANS['C15'] = Plan(
     technique='bounded run-time contract monitor on the real functions (deductive part: see functions_under_contract)',
 )
 
+WCF = 'src/workflow_coordinator.py::_WorkflowCoordinator.'
+PLANS['C07'] = Plan(
+    'C07', [WCF + '__align', WCF + '__getBestAlignment'], 'other',
+    "Deductive part (exception-freedom of the per-query glue, safety obligations generated automatically by the VC generator): _WorkflowCoordinator.__align "
+    "never raises - in particular the unpacking of zip(*rows) is only reached with at least one candidate row - and __getBestAlignment returns None exactly for "
+    "an empty candidate list (else a maximal-confidence candidate); the numerical callees (FFT seeding, refinement, Aligner.align) are assumed contracts "
+    "(result types only). BOUNDED: the whole program on generated well-formed CMAP sets with degenerate molecules over-weighted, all output modes and several "
+    "parameter settings: no exception, well-formed files, every written file (zero-record ones included) is read back by the project's XMAP reader.",
+    bounded=_lazy('bcheck.c07', 'bounded'), replay=_lazy('bcheck.c07', 'replay'),
+    technique='deductive safety obligations (own VC generator + z3) on the per-query glue; bounded run-time contract on Program.run and the XMAP round trip',
+    assumptions=['pandas / numpy / scipy code (readers, FFT seeding, find_peaks, DataFrame.to_csv) is exercised only by the bounded part'],
+)
+
+OMP = 'src/correlation/optical_map.py::OpticalMap.'
+PLANS['C01'] = Plan(
+    'C01', [AP + 'deduplicate', AP + '__deduplicateByKey', OMP + 'getPositionsWithSiteIds', AE + '__getAlignedPairs',
+            SF + '_AlignmentSegmentBuilder.getSegments', 'src/alignment/segment_chainer.py::SegmentChainer.chain'], 'other',
+    "Deductive links (proved for all inputs): label numbers handed to the pairing step are shift+1..shift+n of the named map (getPositionsWithSiteIds), "
+    "candidates pair window labels with query labels (__getAlignedPairs), after the two de-duplication passes a peak's pairs are one-to-one on both label "
+    "numbers with strictly increasing reference labels (deduplicate), segments are contiguous runs of that list (segment builder), the chain is a "
+    "sub-list with each segment once (chain). BOUNDED: the composed statement (strict query monotonicity per strand, disjointness across the segments "
+    "of a record, joined records, at least one pair, every file of every mode, every candidate row) is a run-time contract on the records written by the real "
+    "program and on the candidates it builds, on generated CMAP sets. Cross-segment disjointness is genuinely violated by the pinned code through the two "
+    "known conflict-resolution findings (C15 K1/K2); a failing record is attributed to them only if the conflict monitor saw that mechanism for that query.",
+    bounded=_lazy('bcheck.c01', 'bounded'), replay=_lazy('bcheck.c01', 'replay'),
+    technique='deductive per-function contracts (own VC generator + z3) for the per-peak links; bounded run-time contract on every record and candidate',
+)
+PLANS['C02'] = Plan(
+    'C02', [OMP + 'trim', OMP + 'getPositionsWithSiteIds'], 'other',
+    "Deductive links: OpticalMap.trim (first label at 0, distances kept, length = last-first+1, id kept) and getPositionsWithSiteIds (label numbers refer to the "
+    "whole molecule via shift; reverse strand mirrors about length-1, i.e. measures from the last label of a trimmed query). BOUNDED: every record of every "
+    "file of the real program is re-derived from the CMAP *text* with independent parsers (ids, lengths, start/end coordinates per orientation, entry ids, "
+    "second-pass records numbered in whole-query labels).",
+    bounded=_lazy('bcheck.c02', 'bounded'), replay=_lazy('bcheck.c02', 'replay'),
+    technique='deductive contracts for trimming and label numbering; bounded re-derivation of every record field from the input text',
+)
+PLANS['C04'] = Plan(
+    'C04', [SEG + 'AlignmentSegment.create', SF + '_AlignmentSegmentBuilder.getSegments', AE + '__getAlignedPairs'], 'other',
+    "Deductive links: a candidate's offset is query position - (reference position - seed) and within maxDistance (__getAlignedPairs), a segment's score is "
+    "the sum of its members' scores (AlignmentSegment.create; every trim goes through it), builder segments are contiguous runs of the scored list. BOUNDED: "
+    "Confidence of every returned row and every candidate is recomputed from the raw maps, each segment's peak position and the parameters passed on the "
+    "command line (-sp/-dp/-su/-d swept), labels strictly inside a segment's span are all accounted for, none twice; the Confidence column equals it to 2 decimals.",
+    bounded=_lazy('bcheck.c04', 'bounded'), replay=_lazy('bcheck.c04', 'replay'),
+    technique='deductive contracts for offset and segment score; bounded recomputation of every confidence from raw maps and command-line parameters',
+)
+PLANS['C05'] = Plan(
+    'C05', ['src/correlation/peaks_selector.py::PeaksSelector.selectPeaks', WCF + '__getBestAlignment'], 'other',
+    "Deductive links: selectPeaks keeps the peaksCount highest-scoring peaks in descending order; __getBestAlignment returns a maximal-confidence candidate. "
+    "BOUNDED: at most one record per query in the main file of every mode and in the pass files of separate/all, the first-pass record carries the maximal "
+    "confidence among the captured candidates (at most peaksCount), best mode has exactly one record for every aligned query in ascending id; on generated sets.",
+    bounded=_lazy('bcheck.c05', 'bounded'), replay=_lazy('bcheck.c05', 'replay'),
+    technique='deductive contracts for seed selection and best-candidate choice; bounded run-time contract on the files of all modes',
+)
+
 NOT_APPLICABLE = {}
-FIX_COMMITS = ['a1f5353', '24a396c']
+FIX_COMMITS = ['a1f5353', '24a396c', 'd3d25c6', '9ca2be3']
